@@ -160,7 +160,8 @@ fn real_main(cli: &Cli) -> Result<ExitCode, Error> {
 
                 last = run(runner, &filter, vars.clone(), inputs, |output| {
                     write(tmp.as_file_mut(), writer, &output)
-                })?;
+                })?
+                .or(last);
 
                 // replace the input file with the temporary file
                 std::mem::drop(bytes);
@@ -168,11 +169,13 @@ fn real_main(cli: &Cli) -> Result<ExitCode, Error> {
                 tmp.persist(path).map_err(|e| Error::Io(None, e.into()))?;
                 std::fs::set_permissions(path, perms)?;
             } else {
+                // a file without outputs keeps the last output of the earlier files
                 last = with_stdout(|out| {
                     run(runner, &filter, vars.clone(), inputs, |v| {
                         write(out, writer, &v)
                     })
-                })?;
+                })?
+                .or(last);
             }
         }
         last
